@@ -284,7 +284,16 @@ class EndToEnd(Sub):
 
     def strategy(self, tier):
         op = st.one_of(st.tuples(st.just("event"), st.integers(0, 1), st.booleans()).map(list), st.just(["pump"]))
-        return st.tuples(st.lists(st.integers(0, 1), max_size=2), st.lists(op, min_size=1, max_size=6)).map(list)
+        plain = st.lists(op, min_size=1, max_size=6)
+        # second family: a worker's notifier link backs up (its announcements stay pending) while its subscriber replaces
+        # the subscription; events are of kind 1 or 2 and run as tasks (an acceptance may have to wait for the link)
+        op2 = st.one_of(st.tuples(st.just("event2"), st.integers(0, 1), st.sampled_from([1, 2])).map(list),
+                        st.tuples(st.just("stall"), st.integers(0, 1)).map(list), st.tuples(st.just("unstall"), st.integers(0, 1)).map(list),
+                        st.tuples(st.just("resub"), st.integers(0, 1), st.sampled_from([[1], [2], [1, 2]])).map(list), st.just(["pump"]))
+        motif = st.tuples(st.integers(0, 1), st.sampled_from([1, 2])).map(
+            lambda t: [["stall", t[0]], ["event2", t[0], t[1]], ["event2", t[0], t[1]], ["resub", t[0], [3 - t[1]]], ["unstall", t[0]]])
+        backed_up = st.tuples(st.lists(op2, max_size=4), motif, st.lists(op2, max_size=3)).map(lambda t: t[0] + t[1] + t[2])
+        return st.tuples(st.lists(st.integers(0, 1), max_size=2), st.one_of(plain, plain, backed_up)).map(list)
 
     def run_case(self, case):
         return H.run(self._run, case, timeout=300)
@@ -306,9 +315,12 @@ class EndToEnd(Sub):
         cli_readers = [asyncio.StreamReader() for _ in range(nw)]
         order = []
 
+        cli_writers = {}
+
         async def open_connection(addr, port):
             i = order.pop(0)
-            return cli_readers[i], FakeWriter("c%d" % i, c2s[i])
+            cli_writers[i] = FakeWriter("c%d" % i, c2s[i])
+            return cli_readers[i], cli_writers[i]
 
         fake = types.SimpleNamespace(**{k: getattr(asyncio, k) for k in dir(asyncio) if not k.startswith("__")})
         fake.open_connection = open_connection
@@ -316,6 +328,9 @@ class EndToEnd(Sub):
         notifier.asyncio = fake
         rigs = []
         tasks = []
+        second_family = any(op[0] in ("event2", "stall", "unstall", "resub") for op in ops)
+        pending_adds = []
+        reqs_sent = [[[1, 2]], [[1, 2]]]   # per subscriber: kinds of every REQ "live" it sent, in order
         try:
             cfg = {"run_notifier": True}
             ra = H.Rig("sql", config=cfg, file_db=True)
@@ -342,7 +357,7 @@ class EndToEnd(Sub):
             subs = []
             for i, r in enumerate(rigs):
                 c = r.conn("10.0.%d.1" % i)
-                c.feed(["REQ", "live", {"kinds": [1]}])
+                c.feed(["REQ", "live", {"kinds": [1, 2]}])
                 subs.append(c)
             # the subscriptions are live (EOSE seen) before anything is published; no timer may fire meanwhile
             for _ in range(400):
@@ -386,6 +401,26 @@ class EndToEnd(Sub):
                 if op[0] == "pump":
                     await pump()
                     continue
+                if op[0] in ("stall", "unstall"):
+                    if op[1] in cli_writers:
+                        cli_writers[op[1]].stalled = op[0] == "stall"
+                        if op[0] == "unstall":
+                            cli_writers[op[1]].resume.set()
+                        labels.append("link-" + op[0])
+                    await spin(rigs)
+                    continue
+                if op[0] == "resub":
+                    subs[op[1]].feed(["REQ", "live", {"kinds": op[2]}])
+                    reqs_sent[op[1]].append(op[2])
+                    await spin(rigs, wall=0.02)
+                    continue
+                if op[0] == "event2":
+                    n += 1
+                    ev = E.make(op[1], op[2], E.T0 + n, [], "event %d" % n)
+                    pending_adds.append(asyncio.create_task(rigs[op[1]].storage.add_event(dict(ev))))
+                    await spin(rigs, wall=0.02)
+                    nt = nt or any(wr.stalled for wr in cli_writers.values())
+                    continue
                 w, held = op[1], op[2]
                 n += 1
                 ev = E.make(w, 1, E.T0 + n, [], "event %d" % n)
@@ -405,13 +440,37 @@ class EndToEnd(Sub):
                     nt = True
                 sent.append((ev, True))
                 await spin(rigs)
+            for wr in cli_writers.values():
+                wr.stalled = False
+                wr.resume.set()
             await pump()
             for r in rigs:
                 await r.settle()
             await pump()
             for r in rigs:
                 await r.settle()
+            if pending_adds:
+                done, not_done = await asyncio.wait(pending_adds, timeout=0)
+                if not_done:
+                    viol.append(V("acceptance-never-finishes", "an accepted event is acknowledged once the link drains",
+                                  pending=len(not_done), ops=ops))
+                    for t in not_done:
+                        t.cancel()
+            # after the EOSE of its k-th REQ a subscriber gets nothing that only an EARLIER version of the subscription wanted
             for i, c in enumerate(subs):
+                k = 0
+                for f in c.frames():
+                    if f[0] == "EOSE" and f[1] == "live":
+                        k += 1
+                    elif f[0] == "EVENT" and f[1] == "live" and k >= 1:
+                        current = reqs_sent[i][k - 1:]
+                        if not any(f[2]["kind"] in kinds for kinds in current):
+                            viol.append(V("event-for-replaced-subscription", "a replaced subscription receives nothing any more",
+                                          worker=i, kind=f[2]["kind"], after_eose_number=k, reqs=reqs_sent[i], ops=ops))
+                            break
+            for i, c in enumerate(subs):
+                if second_family:
+                    break
                 got = [f[2]["id"] for f in c.frames() if f[0] == "EVENT" and f[1] == "live"]
                 for ev, must in sent:
                     k = got.count(ev["id"])
